@@ -24,6 +24,7 @@ class Burst(object):
         self.kind = None
         self.length = 0
         self.at = None
+        self.at_sector_select = False
 
     def __call__(self, sim, cmd):
         sx = self.sx
@@ -31,6 +32,10 @@ class Burst(object):
             if sx.truth(sx.flag("burst_starts_at_cmd_%d" % self.k)):
                 self.started = True
                 self.at = self.k
+                # Type 2 SECTOR SELECT: packet 1 (C2 FF) and the passively
+                # acknowledged packet 2 cannot be repeated by design
+                self.at_sector_select = (len(cmd) > 0 and cmd[0] == 0xC2) or \
+                    getattr(sim, 'sector_pending', False)
                 self.kind = sx.pick("kind", self.kinds)
                 self.length = sx.pick("burst", self.lengths)
                 self.mode = sx.pick("lost", list(self.modes))
@@ -54,7 +59,8 @@ def make_world(sx, tt, oldlen):
     if tt == "tt2":
         return worlds.T2World(sx, 48, "L", [(64, 2)], oldlen, symbolic_window=win)
     if tt == "tt2big":
-        return worlds.T2World(sx, 2032, "", [], oldlen, symbolic_window=win)
+        # two sectors: the message crosses the 1 KiB sector boundary
+        return worlds.T2World(sx, 2032, "", [], 1100, symbolic_window=win)
     if tt == "tt1":
         return worlds.T1World(sx, (0x11, 0x48), 120, "", [], oldlen, symbolic_window=win)
     if tt == "tt1dyn":
@@ -152,7 +158,7 @@ def op_faults(sx, tt, op, kinds, lengths):
         sx.reach("no_fault")
         return ["clean", op]
     sx.reach("fault:" + burst.kind)
-    absorbed_expected = burst.length < attempts(w, tag)
+    absorbed_expected = burst.length < attempts(w, tag) and not burst.at_sector_select
     if tt.startswith("tt4") and burst.kind == "protocol":
         # ISO/IEC 14443-4 has no recovery for protocol errors: documented as
         # unrecoverable, reported at once with PROTOCOL_ERROR
@@ -162,7 +168,7 @@ def op_faults(sx, tt, op, kinds, lengths):
         errno = outcome[1]
         ok = sx.any([sx.eq(errno, KINDS[burst.kind][1]), errno > 0])
         sx.check(ok, "errno-does-not-match-error-kind:%s:%s" % (who, burst.kind))
-        if absorbed_expected and not (tt.startswith("tt2") and passive_ack_step(w, burst)):
+        if absorbed_expected and not burst.at_sector_select:
             sx.check(False, "transient-burst-not-absorbed:%s:%s:len=%d" % (who, burst.kind, burst.length))
         return ["error", op, burst.kind]
     # operation completed: absorbed, or a documented None/False result
@@ -220,6 +226,7 @@ def check_sends(sx, w, who):
 def partitions(tier):
     parts = []
     ops = {"tt2": ["read", "reread", "write", "present", "format", "protect", "dump"],
+           "tt2big": ["read"],
            "tt1": ["read", "write", "present", "format", "protect", "dump"],
            "tt1dyn": ["read", "write", "format", "present"],
            "tt3": ["read", "write", "present", "dump"],
